@@ -11,7 +11,7 @@ miss=0
 for d in $V/seeded/*/; do
   id=$(basename $d); prop=${id%%-*}
   if [ $# -gt 0 ]; then ok=0; for p in "$@"; do case $id in $p*) ok=1;; esac; done; [ $ok = 1 ] || continue; fi
-  tier=quick; grep -q '"tier": *"thorough"' $d/meta.json 2>/dev/null && tier=thorough
+  tier=quick; grep -q -- '--tier thorough' $d/meta.json 2>/dev/null && tier=thorough
   git -C $WT/repo checkout -q -- . ; git -C $WT/repo apply $d/patch.diff || { echo "$id: PATCH-DOES-NOT-APPLY"; miss=1; continue; }
   ( cd $VC && REPO=$WT/repo timeout 3000 ./check $prop --tier $tier > $VC/out.txt 2>&1 ); rc=$?
   if [ $rc = 1 ] && grep -q "^VIOLATION property=$prop" $VC/out.txt; then echo "$id: DETECTED by ./check $prop --tier $tier ($(grep -A1 '^VIOLATION' $VC/out.txt | grep -m1 'component=' | cut -c1-160))"
